@@ -1,5 +1,7 @@
 import WV.Proofs.C10
 import WV.Proofs.C10_L4
+import WV.Proofs.C10_L4Run
+import WV.Proofs.C10_E2E
 
 /-!
 C10 property theorems.  `run World.init evs = .ok w` quantifies over EVERY schedule `evs` of
@@ -179,52 +181,148 @@ theorem queued_or_shown_exactly_once (s : Sub) (d : Bytes)
     (s.st = .unconnected → ∃ s', connectSub s = some s' ∧ subTotal s' = subTotal s) :=
   ⟨remote_data_total s d hs, remote_close_total s hs, fun h => connectSub_total s h⟩
 
-/-! The full statement above the ARQ, of which the four theorems above are the per-step parts. -/
+/-! The full statement above the ARQ, for whole runs.  `L4In`, `l4Run`, `dispatchedOf`, `expect`,
+`wellFormed` live in `WV.Proofs.C10_L4Run`: an L4 run is any interleaving of dispatched records and
+listener registrations; `expect c D` is the image (made / data d / rclosed, in order) of the records of
+`D` naming subchannel `c`; `wellFormed` is the discipline of a sending application (each scid opened
+once, written to and closed only between its open and its close). -/
 
-/-- inputs of the receiving side's L4: a dispatched record, or a listener registration -/
-inductive L4In where
-  | disp (r : Rec)
-  | listen (name : Bytes)
-
-def l4Run : L4 → List L4In → L4
-  | t, [] => t
-  | t, .disp r :: rest => l4Run (l4Dispatch t r) rest
-  | t, .listen n :: rest => l4Run (l4Listen t n) rest
-
-def dispatchedOf : List L4In → List Rec
-  | [] => []
-  | .disp r :: rest => r :: dispatchedOf rest
-  | .listen _ :: rest => dispatchedOf rest
-
-/-- the events the records naming subchannel `c` stand for -/
-def expect (c : Nat) : List Rec → List AppEv
-  | [] => []
-  | r :: rs =>
-    match r.body with
-    | .opn c' _ => if c' = c then .made :: expect c rs else expect c rs
-    | .data c' d => if c' = c then .data d :: expect c rs else expect c rs
-    | .close c' => if c' = c then .rclosed :: expect c rs else expect c rs
-
-/-- a well-behaved sender: every scid is opened once, written to only after its open and before its close -/
-def wellFormed : List Nat → List Nat → List Rec → Bool
-  | _, _, [] => true
-  | opened, closed, r :: rs =>
-    match r.body with
-    | .opn c _ => !opened.contains c && wellFormed (c :: opened) closed rs
-    | .data c _ => opened.contains c && !closed.contains c && wellFormed opened closed rs
-    | .close c => opened.contains c && !closed.contains c && wellFormed opened (c :: closed) rs
-
-/-- For a well-formed dispatched stream and any interleaving of listener registrations (each name at
-    most once) nothing raises `NoTransition`, and for every subchannel `subTotal` is the image of the
-    dispatched records that name it.  NOT proved as one induction here (`…_partial` above are its
-    per-step parts): the composition needs the consistency invariant between `pendOpens`,
-    `factories` and the subchannel states; it is covered by the correspondence runs and by the
-    per-subchannel oracle on the real code, and C13 proves open/close exactly-once for the full
-    SubChannel machine. -/
+/-- For a well-formed dispatched stream and ANY interleaving of listener registrations nothing raises
+    `NoTransition`, and for every subchannel what its protocol was shown followed by what is still
+    queued for it (`subTotal`) is, in order, the image of the dispatched records that name it. -/
 def l4_full_statement : Prop :=
   ∀ (ins : List L4In), wellFormed [] [] (dispatchedOf ins) = true →
     (l4Run L4.init ins).fault = false ∧
     ∀ c s, findSub c (l4Run L4.init ins).subs = some s → subTotal s = expect c (dispatchedOf ins)
+
+/-- …proved for all runs, by induction over the run with the invariant `LInv` (built from the four
+    per-step theorems above), together with its sharper half: what the protocol has been SHOWN is a
+    prefix of that image, and it is all of it as soon as a listener for the subchannel's name is
+    registered (nothing stays queued behind a registered listener). -/
+theorem subchannel_delivery_all_runs :
+    l4_full_statement ∧
+    ∀ (ins : List L4In), wellFormed [] [] (dispatchedOf ins) = true →
+      ∀ c s, findSub c (l4Run L4.init ins).subs = some s →
+        s.shown <+: expect c (dispatchedOf ins) ∧
+        (s.name ∈ (l4Run L4.init ins).factories → s.shown = expect c (dispatchedOf ins)) := by
+  have key : ∀ (ins : List L4In), wellFormed [] [] (dispatchedOf ins) = true →
+      ∃ O C, LInv (l4Run L4.init ins) O C (dispatchedOf ins) := by
+    intro ins hwf
+    obtain ⟨O, C, L⟩ := l4Run_inv ins L4.init [] [] [] lInv_init hwf
+    exact ⟨O, C, by simpa using L⟩
+  refine ⟨?_, ?_⟩
+  · intro ins hwf
+    obtain ⟨O, C, L⟩ := key ins hwf
+    exact ⟨L.nofault, fun c s hs => (L.tot c s hs).1⟩
+  · intro ins hwf c s hs
+    obtain ⟨O, C, L⟩ := key ins hwf
+    have t1 := (L.tot c s hs).1
+    refine ⟨by rw [← t1]; exact shown_prefix_total s, ?_⟩
+    intro hn
+    have hst : s.st ≠ .unconnected := fun hu => (L.wait c s hs hu).1 hn
+    rw [← t1, total_eq_shown s hst]
+
+/-! ### end to end: application calls on one side ↦ per-subchannel callbacks on the other -/
+
+/-- END TO END, direction A → B.  For EVERY schedule (writes, opens, closes on both sides,
+    any number of connection generations, losses of any suffix in flight, lost acks, pauses inside
+    the replay, bursts parked behind the KCM, listeners registered at any time) in which A's
+    application is well-behaved (`wfCalls`: each scid opened once, written to / closed only between
+    its open and its close):
+    * no `NoTransition` is ever raised on B;
+    * for every subchannel `c` on B, what its protocol was shown plus what is queued for it is, in order
+      and with write boundaries, the image of the calls that A made on `c` and that B has dispatched
+      — and B has dispatched a prefix of A's calls, each exactly once (`exactly_once_in_order`);
+    * so the callbacks the protocol saw are a prefix of the image of ALL calls A made on `c`;
+    * once B's application listens for the subchannel's name the callbacks are that image exactly,
+      and when everything A issued has been dispatched (`queued_while_down_delivered`,
+      `final_generation_delivers_all`) they are the image of everything A did on `c`. -/
+theorem end_to_end (evs : List Event) (w : World) (h : run World.init evs = .ok w)
+    (hwf : wfCalls [] [] (issued .A evs) = true) :
+    w.b.l4.fault = false ∧
+    w.b.dispatched.map (·.body) <+: issued .A evs ∧
+    ∀ c s, findSub c w.b.l4.subs = some s →
+      subTotal s = callbacks c (w.b.dispatched.map (·.body)) ∧
+      s.shown <+: callbacks c (issued .A evs) ∧
+      (s.name ∈ w.b.l4.factories → s.shown = callbacks c (w.b.dispatched.map (·.body))) ∧
+      (s.name ∈ w.b.l4.factories → w.b.dispatched.map (·.body) = issued .A evs →
+        s.shown = callbacks c (issued .A evs)) := by
+  have hpre := (exactly_once_in_order evs w h).1.1
+  obtain ⟨_, Hb⟩ := run_hist evs hist_init hist_init h
+  obtain ⟨e1, e2⟩ := e2e_direction w.b (issued .A evs) Hb hpre hwf
+  refine ⟨e1, hpre, ?_⟩
+  intro c s hs
+  obtain ⟨f1, f2, f3⟩ := e2 c s hs
+  exact ⟨f1, f2, f3, fun hn hall => by rw [f3 hn, hall]⟩
+
+/-- the same for direction B → A: the two directions are independent instances -/
+theorem end_to_end_rev (evs : List Event) (w : World) (h : run World.init evs = .ok w)
+    (hwf : wfCalls [] [] (issued .B evs) = true) :
+    w.a.l4.fault = false ∧
+    w.a.dispatched.map (·.body) <+: issued .B evs ∧
+    ∀ c s, findSub c w.a.l4.subs = some s →
+      subTotal s = callbacks c (w.a.dispatched.map (·.body)) ∧
+      s.shown <+: callbacks c (issued .B evs) ∧
+      (s.name ∈ w.a.l4.factories → s.shown = callbacks c (w.a.dispatched.map (·.body))) ∧
+      (s.name ∈ w.a.l4.factories → w.a.dispatched.map (·.body) = issued .B evs →
+        s.shown = callbacks c (issued .B evs)) := by
+  have hpre := (exactly_once_in_order evs w h).2.1
+  obtain ⟨Ha, _⟩ := run_hist evs hist_init hist_init h
+  obtain ⟨e1, e2⟩ := e2e_direction w.a (issued .B evs) Ha hpre hwf
+  refine ⟨e1, hpre, ?_⟩
+  intro c s hs
+  obtain ⟨f1, f2, f3⟩ := e2 c s hs
+  exact ⟨f1, f2, f3, fun hn hall => by rw [f3 hn, hall]⟩
+
+/-- …and every call is eventually a callback: from ANY reachable state of a schedule with a well-behaved
+    A, after the final stable generation of `final_generation_delivers_all` every subchannel on B whose
+    name is listened for has been shown exactly the image of everything A did on it. -/
+theorem end_to_end_complete (evs : List Event) (w : World) (h : run World.init evs = .ok w)
+    (hwf : wfCalls [] [] (issued .A evs) = true) :
+    ∃ fin w2, run w fin = .ok w2 ∧ issued .A fin = [] ∧ w2.b.l4.fault = false ∧
+      ∀ c s, findSub c w2.b.l4.subs = some s → s.name ∈ w2.b.l4.factories →
+        s.shown = callbacks c (issued .A evs) := by
+  obtain ⟨w0, w1, w2, s0, s1, r2, hall⟩ := final_generation_delivers_all evs w h
+  let fin : List Event := [(Who.B, if w.b.conn then Act.resume 0 else Act.use 0),
+    (Who.A, if w0.a.conn then Act.resume 0 else Act.use 0)] ++ List.replicate w1.a.out.length (Who.B, Act.deliver)
+  have hrun : run w fin = .ok w2 := by
+    show run w ([_, _] ++ _) = _
+    simp only [List.cons_append, List.nil_append, run, s0, s1]
+    exact r2
+  have issued_app : ∀ (es fs : List Event), issued .A (es ++ fs) = issued .A es ++ issued .A fs := by
+    intro es fs
+    induction es with
+    | nil => rfl
+    | cons e es ih => rw [List.cons_append, issued_cons, issued_cons .A e es, ih, List.append_assoc]
+  have hiss : issued .A fin = [] := by
+    have i3 : ∀ n, issued .A (List.replicate n ((Who.B, Act.deliver) : Event)) = [] := by
+      intro n; induction n with
+      | zero => rfl
+      | succ n ih => simpa [List.replicate_succ, issued] using ih
+    have i2 : issued .A [((Who.B, if w.b.conn then Act.resume 0 else Act.use 0) : Event),
+        (Who.A, if w0.a.conn then Act.resume 0 else Act.use 0)] = [] := by
+      cases w.b.conn <;> cases w0.a.conn <;> rfl
+    show issued .A ([_, _] ++ _) = []
+    rw [issued_app, i2, i3]; rfl
+  have hrun' : run World.init (evs ++ fin) = .ok w2 := by
+    have : ∀ (es fs : List Event) (u v x : World), run u es = .ok v → run v fs = .ok x → run u (es ++ fs) = .ok x := by
+      intro es
+      induction es with
+      | nil => intro fs u v x h1 h2; simp only [run, Except.ok.injEq] at h1; subst h1; exact h2
+      | cons e es ih =>
+        intro fs u v x h1 h2
+        simp only [List.cons_append, run] at h1 ⊢
+        split at h1
+        · next u1 hu1 => exact ih fs u1 v x h1 h2
+        · cases h1
+    exact this evs fin _ w w2 h hrun
+  have hissued : issued .A (evs ++ fin) = issued .A evs := by
+    rw [issued_app, hiss, List.append_nil]
+  obtain ⟨e1, _, e3⟩ := end_to_end (evs ++ fin) w2 hrun' (by rw [hissued]; exact hwf)
+  refine ⟨fin, w2, hrun, hiss, e1, ?_⟩
+  intro c s hs hn
+  have := (e3 c s hs).2.2.2 hn (by rw [hissued]; exact hall)
+  rw [hissued] at this; exact this
 
 /-- the full statement on a concrete late-listener run: two subchannels of one name with queued data
     and a queued close, listener registered afterwards -/
@@ -273,6 +371,25 @@ def demoParkEnd : World := match run World.init demoPark with | .ok w => w | .er
 example : run World.init demoPark = .ok demoParkEnd ∧ demoParkEnd.b.dispatched.length = 3 ∧
     demoParkEnd.b.parked = [] ∧ demoParkEnd.b.high = 2 ∧
     (demoParkEnd.b.l4.subs.map (·.shown)) = [[.made, .data [1], .data [2]]] :=
+  ⟨rfl, by decide⟩
+
+/-- `end_to_end` on a concrete run: two subchannels opened and written while down, a burst of three
+    parked behind the KCM, a loss with every ack lost, more calls while down, a full replay with the
+    duplicates dropped, and the listener registered only at the very end -/
+def demoE2E : List Event :=
+  [(.A, .write (.opn 1 [97])), (.A, .write (.opn 3 [97])), (.A, .write (.data 1 [1])), (.A, .write (.data 3 [2])),
+   (.A, .use 0), (.B, .park), (.B, .park), (.B, .park), (.B, .use 0), (.B, .deliver),
+   (.A, .lose), (.B, .lose), (.A, .write (.data 1 [3])), (.A, .write (.close 3)), (.A, .use 0), (.B, .use 0)] ++
+  List.replicate 6 (.B, .deliver) ++ [(.B, .listen [97])]
+
+def demoE2EEnd : World := match run World.init demoE2E with | .ok w => w | .error _ => World.init
+
+example : run World.init demoE2E = .ok demoE2EEnd ∧ wfCalls [] [] (issued .A demoE2E) = true ∧
+    demoE2EEnd.b.l4.fault = false ∧
+    demoE2EEnd.b.l4.subs.map (fun s => (s.scid, s.shown)) =
+      [(1, callbacks 1 (issued .A demoE2E)), (3, callbacks 3 (issued .A demoE2E))] ∧
+    callbacks 1 (issued .A demoE2E) = [.made, .data [1], .data [3]] ∧
+    callbacks 3 (issued .A demoE2E) = [.made, .data [2], .rclosed] :=
   ⟨rfl, by decide⟩
 
 /-- a reachable state in the middle of a paused replay: `_queued_unsent` non-empty, the receiver
